@@ -11,24 +11,39 @@ add_enum("Composite", ["Named", "Unnamed"])
 add_enum("Primitive", ["Bool", "Char", "String", "U128", "I128", "U256", "I256"])
 add_enum("TokenTree", ["Group", "Ident", "Punct", "Literal"])
 
+class SymDraws:
+    """A-rng: draw k of a seeded generator is an uninterpreted value of the drawn type (the same z3 constant in every
+    execution that uses the same seed, so determinism is a property the check can observe); `choose`/`gen_range` fork"""
+    def __init__(self, eng, seed): self.eng = eng; self.seed = seed; self.k = 0
+    def fresh(self, ty):
+        bits = INT_BITS[ty]; self.k += 1
+        tag = self.seed if isinstance(self.seed, int) else "s"
+        return z3.Bool("rng%s_%d_bool" % (tag, self.k)) if ty == "bool" else z3.BitVec("rng%s_%d_%s" % (tag, self.k, ty), bits)
+    def gen(self, ty): return self.fresh(ty)
+    def gen_range_u32(self, lo, hi):
+        self.k += 1
+        memo = self.eng.rng_memo; key = (self.seed if isinstance(self.seed, int) else "s", self.k, lo, hi)
+        if key not in memo: memo[key] = self.eng.choose([(v, True) for v in range(lo, hi)])     # draw k of one seed is one value, in every execution of the path
+        return memo[key]
 class RngV:
-    def __init__(self, seed): self.r = ChaCha8(seed)
+    def __init__(self, seed, eng=None):
+        self.r = SymDraws(eng, seed) if (eng is not None and getattr(eng, "rng_mode", "exact") == "symbolic") else ChaCha8(seed)
 def value(vd): return Agg("Value", [vd, UNIT])
 def vcomp(kind, items): return En("Composite", 0 if kind == "Named" else 1, kind, [VecV(items)])
 
-@model(r"^<ChaCha8Rng as SeedableRng>::seed_from_u64$")
-def _(eng, m, g, a): return RngV(a[0].v)
-@model(r"^<.* as Rng>::gen$")
+@model(r"^<(?:rand_chacha::)?ChaCha8Rng as (?:rand::)?SeedableRng>::seed_from_u64$")
+def _(eng, m, g, a): return RngV(a[0].v, eng)
+@model(r"^<.* as (?:rand::)?Rng>::gen$")
 def _(eng, m, g, a):
     r = deref(a[0]).r; t = g[0]
     ma = re.match(r"^\[(\w+); (\d+)\]$", t)
     if ma: return VecV([Sc(ma.group(1), r.gen(ma.group(1))) for _ in range(int(ma.group(2)))])
     return Sc(t, r.gen(t))
-@model(r"^<.* as Rng>::gen_range$")
+@model(r"^<.* as (?:rand::)?Rng>::gen_range$")
 def _(eng, m, g, a):
     r = deref(a[0]).r; lo, hi = a[1].f
     return Sc(lo.ty, r.gen_range_u32(lo.v, hi.v))
-@model(r"^<\[.*\] as SliceRandom>::choose$")
+@model(r"^<\[.*\] as (?:rand::seq::|rand::)?SliceRandom>::choose$")
 def _(eng, m, g, a):
     items = deref(a[0]).items
     if not items: return none()
@@ -94,3 +109,15 @@ def canon(v, out):
         elif p.name == "U128": out.append("u:%d" % x.v)
         elif p.name == "I128": out.append("i:%d" % (x.v - (1 << 128) if x.v >> 127 else x.v))
         else: out.append(("u256:" if p.name == "U256" else "i256:") + "[" + ", ".join(str(b.v) for b in x.items) + "]")
+
+_FRESH = [0]
+@model(r"^rand::random$")
+def _(eng, m, g, a):
+    """thread-local generator: not tied to any seed - a fresh unconstrained value on every call"""
+    t = g[0] if g else "u32"; _FRESH[0] += 1
+    ma = re.match(r"^\[(\w+); (\d+)\]$", t)
+    if ma: return VecV([Sc(ma.group(1), z3.BitVec("threadrng_%d_%d" % (_FRESH[0], i), INT_BITS[ma.group(1)])) for i in range(int(ma.group(2)))])
+    return Sc(t, z3.Bool("threadrng_%d" % _FRESH[0]) if t == "bool" else z3.BitVec("threadrng_%d" % _FRESH[0], INT_BITS[t]))
+@model(r"^rand::thread_rng$")
+def _(eng, m, g, a):
+    _FRESH[0] += 1; r = RngV(0); r.r = SymDraws(eng, "thread%d" % _FRESH[0]); return r
